@@ -540,7 +540,9 @@ class Ovld:
         for ov in self._linked():
             if ov._compiled and ov not in rebuild:
                 rebuild.append(ov)
-        for ov in rebuild:
+        for ov in self._linked():
+            # All of them, not only the ones in service: an earlier update
+            # may have been interrupted half-way through this very step
             ov._invalidate()
         return rebuild
 
